@@ -32,7 +32,15 @@ const (
 	lvlCyr     = slog.Level(24) // registered under a Cyrillic title
 	lvlMBTags  = slog.Level(25) // registered with multi-byte custom tags
 	lvlRecolor = slog.Level(26) // registered; its colours are set anew (SetLevelColors) before every use
+	lvlPartial = slog.Level(27) // registered with short tags for the widths 1-3 only
 )
+
+// the short tags the registrations below give (index = width)
+var c06givenTags = map[slog.Level][6]string{
+	lvlMBTags:  {"", "\u00e9", "\u00e9\u00e0", "\u65e5\u672c\u8a9e", "\u65e5\u672c\u8a9e\u3060", "\U0001f600\u65e5\u672c\u8a9e\u3060"},
+	lvlNoClr:   {"", "p", "pl", "pln", "plnl", "plnlv"},
+	lvlPartial: {"", "P", "PA", "PRT"},
+}
 
 var customRegistered bool
 
@@ -47,11 +55,12 @@ func registerCustomLevels() {
 	_ = slog.RegisterLevel(lvlCyr, "\u0443\u0432\u0435\u0434\u043e\u043c\u043b\u0435\u043d\u0438\u0435", slog.RegWithTreatedAsLevel(slog.InfoLevel))
 	_ = slog.RegisterLevel(lvlMBTags, "mbtags", slog.RegWithShortTags([6]string{"", "\u00e9", "\u00e9\u00e0", "\u65e5\u672c\u8a9e", "\u65e5\u672c\u8a9e\u3060", "\U0001f600\u65e5\u672c\u8a9e\u3060"}))
 	_ = slog.RegisterLevel(lvlRecolor, "recolor")
+	_ = slog.RegisterLevel(lvlPartial, "partial", slog.RegWithShortTags([6]string{"", "P", "PA", "PRT"}))
 	_ = slog.RegisterLevel(lvlNoClr, "plainlvl", slog.RegWithShortTags([6]string{"", "p", "pl", "pln", "plnl", "plnlv"}), slog.RegWithTreatedAsLevel(slog.DebugLevel))
 }
 
 var colorLevels = []slog.Level{slog.PanicLevel, slog.FatalLevel, slog.ErrorLevel, slog.WarnLevel, slog.InfoLevel, slog.DebugLevel, slog.TraceLevel,
-	slog.AlwaysLevel, slog.OKLevel, slog.SuccessLevel, slog.FailLevel, lvlFgOnly, lvlFgBg, lvlNoClr, lvlUnreg, lvlCJK, lvlCyr, lvlMBTags, lvlRecolor, lvlRecolor}
+	slog.AlwaysLevel, slog.OKLevel, slog.SuccessLevel, slog.FailLevel, lvlFgOnly, lvlFgBg, lvlNoClr, lvlUnreg, lvlCJK, lvlCyr, lvlMBTags, lvlRecolor, lvlRecolor, lvlPartial}
 
 type c06case struct {
 	recCase
@@ -60,6 +69,18 @@ type c06case struct {
 	minW     int
 	layoutOK bool // message is in the layout-fidelity domain
 	pc       uintptr // the call site the record is attributed to (one of 320)
+	nilAt    []int   // positions at which the attribute list handed over holds an unused (nil) slot
+}
+
+// withNils inserts nil slots (what a pre-sized attribute list holds where nothing was put) at the given positions.
+func withNils(as slog.Attrs, at []int) slog.Attrs {
+	for _, i := range at {
+		if i > len(as) {
+			i = len(as)
+		}
+		as = append(as[:i:i], append(slog.Attrs{nil}, as[i:]...)...)
+	}
+	return as
 }
 
 func c06gen(r *gen.R, testing bool) c06case {
@@ -73,6 +94,11 @@ func c06gen(r *gen.R, testing bool) c06case {
 		sanitizeErrs(c.kvs)
 	}
 	c.lvl = gen.Pick(r, colorLevels)
+	if len(c.kvs) >= 2 && r.P(15) {
+		for k := r.Range(1, 3); k > 0; k-- {
+			c.nilAt = append(c.nilAt, r.Range(1, len(c.kvs)-1)) // in the middle of the list
+		}
+	}
 	c.ts = r.Time()
 	c.tagW = 3
 	c.minW = 36
@@ -99,6 +125,10 @@ func c06gen(r *gen.R, testing bool) c06case {
 		var parts []string
 		for i := 0; i < lines; i++ {
 			parts = append(parts, r.Str(mo))
+		}
+		if r.P(8) {
+			// LINE SEPARATOR / PARAGRAPH SEPARATOR are characters of a line, not line breaks
+			parts[0] = gen.Pick(r, []string{"a\u2028b", "\u2029lead", "tail\u2028", "x\u2028\u2029y"}) + parts[0]
 		}
 		c.msg = strings.Join(parts, "\n")
 		if r.P(25) {
@@ -318,7 +348,7 @@ func c06main(c *Ctx) {
 			case 5:
 				doomedRecord(FColor, w)
 			}
-			evs := capture(log, func() { lg.WriteThru(bg, cs.lvl, cs.ts, cs.pc, cs.msg, attrsOf(cs.kvs)) })
+			evs := capture(log, func() { lg.WriteThru(bg, cs.lvl, cs.ts, cs.pc, cs.msg, withNils(attrsOf(cs.kvs), cs.nilAt)) })
 			c.R.Add("write_events", int64(len(evs)))
 			if len(evs) != 1 || evs[0].Kind != mon.EvWrite {
 				return nil, []tv{{"one-write", "count", fmt.Sprintf("expected exactly one Write, saw %s", fmtEvents(evs))}}
@@ -327,7 +357,7 @@ func c06main(c *Ctx) {
 			// differential hygiene: the same record with neutralised values must show the same escape/control skeleton
 			n := cs
 			n.kvs = neutralKVs(cs.kvs)
-			evs2 := capture(log, func() { lg.WriteThru(bg, n.lvl, n.ts, n.pc, n.msg, attrsOf(n.kvs)) })
+			evs2 := capture(log, func() { lg.WriteThru(bg, n.lvl, n.ts, n.pc, n.msg, withNils(attrsOf(n.kvs), n.nilAt)) })
 			var vs []tv
 			if len(evs2) == 1 {
 				a, b := skeleton(payload), skeleton(evs2[0].Data)
@@ -491,6 +521,19 @@ func c06check(payload []byte, cs c06case, testing bool) (out []tv) {
 	prefix := tsText + "| "
 	if cs.name != "" {
 		prefix += cs.name + " "
+	}
+	// the tag itself: as wide as configured (in characters - or in bytes, for tags outside ASCII); the given tag where
+	// the registration gave one for that width
+	if rest := strings.TrimPrefix(text, prefix); rest != text && strings.HasPrefix(rest, "[") {
+		if j := strings.Index(rest, "] "); j >= 0 {
+			tag := rest[1:j]
+			if n := utf8.RuneCountInString(tag); n != cs.tagW && len(tag) != cs.tagW {
+				return append(out, tv{"layout-prefix", "tag-width", fmt.Sprintf("the level tag %q has %d character(s), the configured width is %d", tag, n, cs.tagW)})
+			}
+			if given, ok := c06givenTags[cs.lvl]; ok && given[cs.tagW] != "" && tag != given[cs.tagW] {
+				return append(out, tv{"layout-prefix", "tag-given", fmt.Sprintf("the level tag is %q, the registration gave %q for width %d", tag, given[cs.tagW], cs.tagW)})
+			}
+		}
 	}
 	prefix += "[" + cs.lvl.ShortTag(cs.tagW) + "] "
 	if !strings.HasPrefix(text, prefix) {
